@@ -5,7 +5,31 @@ from opacus.optimizers import get_optimizer_class
 if __name__ == '__main__':
     p = read_payload()
     out = {}
-    out['ebs'] = [int(n * (1 / l)) for n, l in p.get('ebs', [])]
+    # (dataset size, batch size) -> [N, len(loader), expected_batch_size] from the REAL make_private
+    ebs = []
+    if p.get('ebs'):
+        import warnings
+        import torch.nn as nn
+        from torch.utils.data import DataLoader, Dataset
+        from opacus import PrivacyEngine
+        warnings.filterwarnings('ignore')
+
+        class DS(Dataset):
+            def __init__(s, n):
+                s.n = n
+
+            def __len__(s):
+                return s.n
+
+            def __getitem__(s, i):
+                return torch.zeros(3), 0
+        for n, bs in p['ebs']:
+            model = nn.Linear(3, 2)
+            opt = torch.optim.SGD(model.parameters(), lr=0.1)
+            dl = DataLoader(DS(n), batch_size=bs)
+            r_ = PrivacyEngine(accountant='rdp').make_private(module=model, optimizer=opt, data_loader=dl, noise_multiplier=1.0, max_grad_norm=1.0, poisson_sampling=False)
+            ebs.append([n, len(r_[2]), int(r_[1].expected_batch_size)])
+    out['ebs'] = ebs
     if p.get('classes'):
         d = {}
         for c in ['flat', 'per_layer', 'adaptive']:
